@@ -10,7 +10,7 @@ from vf.props import common
 
 ID = "C02"
 LEVEL = "exploration"
-TECHNIQUE = "Hypothesis-generated trees x piece lengths x four v2-capable creators (+ exhaustive single-file boundary grid) against two independent BEP 52 merkle formulations"
+TECHNIQUE = "Hypothesis-generated trees x piece lengths x four v2-capable creators (+ exhaustive single-file boundary grid) against two independent BEP 52 merkle formulations ; optional second act (one file rewritten in place, same process creates again)"
 RULE = ("Cases: generated content tree x piece length x creator in {TorrentFileV2, TorrentAssembler v2, TorrentFileHybrid, "
         "TorrentAssembler hybrid} x route (library / CLI for the assembler). Oracle: file-tree leaves = files on disk "
         "(paths, lengths), pieces root = reference root (bottom-up and top-down formulations agree), empty files have no "
